@@ -165,6 +165,7 @@ pub fn generate(rng: &mut Rng, thorough: bool) -> (C11Scenario, String) {
         };
         used_keys.push((pkg.clone(), name.clone()));
         let kind = *rng.pick(&Kind::ALL);
+        let name = if huge && rng.pct(85) { format!("N{i}") } else { name };
         let doc = gen::gen_doc(rng, &u, &knobs.gen, &pkg, &name, kind, 1000 + i as u64);
         let content = if rng.pct(knobs.p_malformed) {
             Content::Raw(gen::gen_malformed(rng, &doc))
